@@ -2,6 +2,10 @@
 
 package main
 
+import "github.com/TarsCloud/TarsGo/tars"
+
 const haveMsgIDHook = false
 
 func setMsgID(v int32) {}
+
+func drawID(sp *tars.ServantProxy) int32 { return 1 }
